@@ -110,6 +110,7 @@ namespace sim
                                                 // would-block (held) until it has been released once
         std::map<int, int> sends_on;            // descriptor -> calls answered so far
         std::set<int> released_once;
+        bool eventfd_read_is_a_point = false;   // fine threads also yield before every read() of an eventfd (a mailbox's notification)
         bool epoll_ctl_is_a_point = false;      // fine threads also yield before every epoll_ctl()
         bool hold_spares_send = false;          // a held descriptor blocks sendfile() only (header goes out, file body stalls)
         std::set<int> blocked;                  // held descriptors that have answered would-block since they were held
@@ -440,6 +441,28 @@ ssize_t recv(int fd, void* buf, size_t len, int flags)
     return fn(fd, buf, len, flags);
 }
 
+ssize_t read(int fd, void* buf, size_t len)
+{
+    static auto fn = sim::real<ssize_t (*)(int, void*, size_t)>("read");
+    if (len == 8 && ng_active() && ng_self() >= 0 && ng_is_fine())
+    {
+        bool point;
+        {
+            sim::TsanIgnore ign;
+            point = sim::S().eventfd_read_is_a_point;
+        }
+        if (point)
+        {
+            char path[64], target[64];
+            snprintf(path, sizeof path, "/proc/self/fd/%d", fd);
+            ssize_t n = readlink(path, target, sizeof target - 1);
+            if (n > 0 && (target[n] = 0, strstr(target, "eventfd") != nullptr))
+                ng_park_at(4, nullptr); // between a consumer's look at its mailbox and its consuming the notification
+        }
+    }
+    return fn(fd, buf, len);
+}
+
 ssize_t sendfile(int out_fd, int in_fd, off_t* offset, size_t count)
 {
     static auto fn = sim::real<ssize_t (*)(int, int, off_t*, size_t)>("sendfile");
@@ -559,7 +582,7 @@ namespace sim
             return false;
         if (ng_kind(a) == 1)
             return ng_mutex_free(ng_addr(a)) != 0;
-        if (ng_kind(a) == 2 || ng_kind(a) == 3)
+        if (ng_kind(a) == 2 || ng_kind(a) == 3 || ng_kind(a) == 4)
             return true;
         struct pollfd p;
         p.fd      = ng_epfd(a);
